@@ -136,7 +136,35 @@ def _rename(node, mapping):
             _rename(v, mapping)
 
 
+def _calls_all(b, suffixes):
+    names = {T.canon(T.callee_of(c)).split("::")[-1] for c in T.calls(b["body"])}
+    return all(x in names for x in suffixes)
+
+
+# a reviewed private helper that was merely renamed is found again by its role: (module prefix, method names it must call)
+ROLE_ALIASES = {
+    "encodation::base256::write_length": ("encodation::base256::", ("replace", "insert", "symbol_size_left")),
+    "encodation::c40::handle_end": ("encodation::c40::", ("backup", "set_ascii_until_end", "symbol_size_left")),
+    "encodation::edifact::handle_end": ("encodation::edifact::", ("backup", "set_ascii_until_end", "symbol_size_left")),
+}
+
+
+def resolve_aliases(facts):
+    found = {}
+    for want, (prefix, must) in ROLE_ALIASES.items():
+        if any(T.canon(n) == want for n in facts.thir):
+            continue
+        cands = [n for n, b in facts.thir.items() if T.canon(n).startswith(prefix) and "{closure" not in n and _calls_all(b, must)]
+        if len(cands) == 1:
+            facts.thir[want] = facts.thir[cands[0]]
+            if cands[0] in facts.mir:
+                facts.mir[want] = facts.mir[cands[0]]
+            found[want] = cands[0]
+    return found
+
+
 def canonicalise(facts):
+    facts.aliases = resolve_aliases(facts)
     by_canon = {}
     for name in facts.thir:
         by_canon.setdefault(T.canon(name), []).append(name)
